@@ -38,6 +38,8 @@ type NativeCall struct {
 	PostCall string // C statement executed after the call (e.g. a report function)
 	InitFn   string // module initialiser to call first (globals)
 	Track    bool   // wrap ddp_reallocate: report wrong sizes, foreign releases and blocks left at the end
+	InitAll  bool   // call the initialiser of every module in the object (imports first), as ddp_ddpmain does
+	InitFns  []string
 }
 
 type NativeResult struct {
@@ -171,9 +173,15 @@ static void vreport(void) { int live = 0; for (int i = 0; i < vnb; i++) if (VB[i
 		// the symbol is derived from the file path and need not be a C identifier
 		fmt.Fprintf(&sb, "extern void vmodinit(void) __asm__(\"%s\");\n", nc.InitFn)
 	}
+	for i, f := range nc.InitFns {
+		fmt.Fprintf(&sb, "extern void vmodinit%d(void) __asm__(\"%s\");\n", i, f)
+	}
 	sb.WriteString("int main(int argc, char **argv) {\n\tddp_init_runtime(argc, argv);\n")
 	if nc.InitFn != "" {
 		sb.WriteString("\tvmodinit();\n")
+	}
+	for i := range nc.InitFns {
+		fmt.Fprintf(&sb, "\tvmodinit%d();\n", i)
 	}
 	sb.WriteString(setup.String())
 	call := fmt.Sprintf("%s(%s)", nc.Fn, strings.Join(callArgs, ", "))
@@ -265,6 +273,23 @@ func RunNativeOpt(env *build.Env, nc *NativeCall, valgrind bool) *NativeResult {
 				}
 			}
 		}
+	}
+	if nc.InitAll {
+		nc.InitFns = nil
+		var own []string
+		if out, err := exec.Command("nm", "--defined-only", obj).Output(); err == nil {
+			for _, l := range strings.Split(string(out), "\n") {
+				f := strings.Fields(l)
+				if len(f) == 3 && strings.HasPrefix(f[2], "ddp_") && strings.HasSuffix(f[2], "_init") {
+					if strings.Contains(f[2], "_Duden_") {
+						nc.InitFns = append(nc.InitFns, f[2])
+					} else {
+						own = append(own, f[2])
+					}
+				}
+			}
+		}
+		nc.InitFns = append(nc.InitFns, own...)
 	}
 	res.Driver = nc.Driver()
 	drv := filepath.Join(dir, "driver.c")
